@@ -182,6 +182,28 @@ def ops_eq(rng, d, cats=DR.CATS):
     return ops, 2
 
 
+def ops_eq_history(rng, d, cats=DR.CATS):
+    """comparisons interleaved with further fills of values the aggregators already hold (an == must not remember
+    anything about an earlier comparison)"""
+    al = DR.Alphabet(d, cats)
+    seen = [(al.datum(rng), rng.choice(DR.POSWEIGHTS)) for _ in range(rng.randint(1, 3))]
+    ops = [{"op": "New", "s": 1, "d": d}, {"op": "New", "s": 2, "d": d}]
+    for x, w in seen:
+        ops.append({"op": "Fill", "s": 1, "x": x, "w": w})
+        ops.append({"op": "Fill", "s": 2, "x": x, "w": w})
+    ops.append({"op": "Eq", "a": 1, "b": 2, "must": False})
+    x, w = rng.choice(seen)
+    ops.append({"op": "Fill", "s": 1, "x": x, "w": w})                 # a value it already holds
+    ops.append({"op": "Eq", "a": 1, "b": 2, "must": False})            # contents differ now
+    ops.append({"op": "Copy", "t": 3, "a": 1})
+    ops.append({"op": "Eq", "a": 1, "b": 3, "must": True})             # equal to its own copy
+    ops.append({"op": "Fill", "s": 2, "x": x, "w": w})
+    ops.append({"op": "Eq", "a": 2, "b": 3, "must": False})
+    ops.append({"op": "Pickle", "t": 3, "a": 2})
+    ops.append({"op": "Eq", "a": 3, "b": 2, "must": True})
+    return ops, 3
+
+
 def trailing_variant(rng, d):
     """a descriptor that differs from d by one extra trailing bin / threshold / centre / label (or None)"""
     cands = []
@@ -244,6 +266,7 @@ def variants(rng, d):
             cs = list(n["centers"])
             put("center", dict(n, centers=cs[:-1] + [Q(frac(cs[-1]) + 1)]))
             put("ncenters", dict(n, centers=cs + [Q(frac(cs[-1]) + 2)]))
+            put("dupcenter", dict(n, centers=cs + [cs[-1]]))      # the same SET of centres, a different list
         elif k == "IrregularlyBin":
             es = list(n["edges"])
             put("edge", dict(n, edges=es[:-1] + [Q(frac(es[-1]) + 1)]))
